@@ -109,6 +109,44 @@ def kernels():
         "  eexists; split; [reflexivity|]. list_eq ltac:(first [reflexivity | (f_equal; ring)]). Qed." % PS,
         imports=IMPORTS,
         expect_structure={"tuple": ["e", 0, 1]}))
+    # percentile on three symbolic points and a symbolic axis (coordinates along the axis in increasing order), for two
+    # percentiles whose virtual index is dyadic (so NumPy's float index arithmetic is exact): q = 25 -> index 1/2
+    # (NumPy's upper-half form b - (b-a)(1-t)), q = 12.5 -> index 1/4 (lower-half form a + (b-a)t)
+    from polliwog.pointcloud import percentile
+    pct_lemma = (
+        "Lemma {T}_ok : forall {vars} : R, {T}_path ROps {vars} ->\n"
+        "  percentile ROps %s (V3 a0 a1 a2) (%s) =\n"
+        "  Ok (V3 (List.nth 0 ({T} ROps {vars}) 0) (List.nth 1 ({T} ROps {vars}) 0) (List.nth 2 ({T} ROps {vars}) 0)).\n"
+        "Proof. intros {vars} Hpath. unfold {T}_path in Hpath; rops. path_facts Hpath. unfold {T}.\n"
+        "  rewrite Rminus_0_r in *.\n"
+        "  assert (Haz : almost_zero ROps (V3 a0 a1 a2) = false).\n"
+        "  { unfold almost_zero, atol8; rops; cbn [vx vy vz].\n"
+        "    match goal with |- context [Rleb ?a ?b] => destruct (Rleb_spec a b); [exfalso; lra|reflexivity] end. }\n"
+        "  unfold percentile. rewrite Haz. f_equal.\n"
+        "  set (u := vnormalize ROps (V3 a0 a1 a2)).\n"
+        "  set (c0 := vdot ROps (V3 p0 p1 p2) u). set (c1 := vdot ROps (V3 p3 p4 p5) u). set (c2 := vdot ROps (V3 p6 p7 p8) u).\n"
+        "  assert (H01 : c0 < c1) by (unfold c0, c1, u; vunf; lra).\n"
+        "  assert (H12 : c1 < c2) by (unfold c1, c2, u; vunf; lra).\n"
+        "  assert (Es : isort ROps [c0; c1; c2] = [c0; c1; c2]).\n"
+        "  { cbv [isort insert_sorted]; rops.\n"
+        "    repeat match goal with |- context [Rleb ?a ?b] => destruct (Rleb_spec a b); try (exfalso; lra) end; reflexivity. }\n"
+        "  assert (Ev : percentile_value ROps [c0; c1; c2] (%s) = %s).\n"
+        "  { unfold percentile_value. rewrite Es. cbn [length]. rops.\n"
+        "    replace (Rfloor (IZR (Z.of_nat 3 - 1) * (%s / 100))) with 0%%Z by (symmetry; apply Rfloor_unique; simpl; lra).\n"
+        "    simpl. unfold n0; rops. field. }\n"
+        "  cbn [map]. fold c0 c1 c2. rewrite Ev. clear Es Ev.\n"
+        "  unfold c0, c1, c2, u. cbv [centroid vsum fold_left length vreject vnormalize vnorm vnorm2 vdivs vdot vadd vsub vscale vzero vx vy vz n0 List.nth]; rops.\n"
+        "  simpl Z.of_nat.\n"
+        "  set (s := sqrt (a0 * a0 + a1 * a1 + a2 * a2)).\n"
+        "  set (s2 := sqrt (a0 / s * (a0 / s) + a1 / s * (a1 / s) + a2 / s * (a2 / s))).\n"
+        "  apply V3_ext; unfold nfrac; rops; unfold Rdiv; ring.\nQed.")
+    for name, qf, qc, val in (("percentile_q25", 25.0, "25", "c1 - (c1 - c0) * (1 / 2)"),
+                              ("percentile_q12_5", 12.5, "25 / 2", "c0 + (c1 - c0) * (1 / 4)")):
+        ks.append(Kernel(
+            name, {"p": [[1.0, 5.0, -2.0], [3.0, 4.0, 0.5], [2.0, 6.0, -1.0]], "a": [1.0, 2.0, 1.0]},
+            (lambda qf: lambda p, a: percentile(p, a, qf))(qf),
+            pct_lemma % (PS, qc, qc, val, "(%s)" % qc),
+            imports=IMPORTS + [("PW.proofs", "P_vec"), ("PW.proofs", "P_pointcloud")]))
     return ks
 
 
@@ -193,6 +231,10 @@ def gen_cases(rng, n, tier):
     for _ in range(n):
         r = rng.random()
         scale = _scale(rng, tier)
+        # integer-dtype stream: the same data as whole numbers in int64 arrays (moderate size)
+        is_int = rng.random() < 0.1
+        if is_int:
+            scale = 2.0 ** rng.randint(2, 4)
         if r < 0.2:
             o = [x * scale for x in grid_vec(rng)]
             s = [rng.choice([0, 0, 1, 2, 3, 5, 8]) / 2 * scale for _ in range(3)]
@@ -254,12 +296,25 @@ def gen_cases(rng, n, tier):
                     ax = [x * 2.0 ** -20 for x in ax]
                 qq = rng.choice([0.0, 100.0, 50.0, 25.0, 75.0, float(rng.randint(0, 100)), rng.randint(0, 800) / 8])
                 cases.append({"kind": "percentile", "points": pts, "axis": ax, "q": qq})
+        if is_int and cases[-1]["kind"] in INT_KINDS:
+            cases[-1]["int"] = True
     return cases
 
 
+INT_KINDS = ("box", "box_negative", "from_points", "contains", "extent", "percentile")
+
+
+def _a(x, c, shape=None):
+    a = np.array(x, dtype=np.float64)
+    a = a.reshape(shape) if shape is not None else a
+    if c.get("int"):
+        b = a.astype(np.int64)
+        if np.array_equal(a, b):  # (a case whose data are not whole numbers simply stays float64)
+            return b
+    return a
+
+
 # ---------------------------------------------------------------------------------------------------------
-def _pts(ps):
-    return np.array(ps, dtype=np.float64).reshape(-1, 3)
 
 
 def run_impl(c):
@@ -269,17 +324,17 @@ def run_impl(c):
     def go():
         kind = c["kind"]
         if kind.startswith("box"):
-            o, s = np.array(c["origin"]), np.array(c["size"])
+            o, s = _a(c["origin"], c), _a(c["size"], c)
             b = Box(o, s)
             seq_vals, fresh_vals = [], []
             for name, mutate in c.get("sequence", []):
                 seq_vals.append(_read(b, name, mutate))
-                fresh_vals.append(_read(Box(np.array(c["origin"]), np.array(c["size"])), name))
+                fresh_vals.append(_read(Box(_a(c["origin"], c), _a(c["size"], c)), name))
             obs = [float(x) for x in _box_observables(b)]
-            fresh_obs = [float(x) for x in _box_observables(Box(np.array(c["origin"]), np.array(c["size"])))]
+            fresh_obs = [float(x) for x in _box_observables(Box(_a(c["origin"], c), _a(c["size"], c)))]
             return {"obs": obs, "fresh_obs": fresh_obs, "seq_vals": seq_vals, "fresh_vals": fresh_vals, "args_unchanged": bool(np.array_equal(o, np.array(c["origin"])) and np.array_equal(s, np.array(c["size"])))}
         if kind.startswith("from_points"):
-            ps = _pts(c["points"])
+            ps = _a(c["points"], c, (-1, 3))
             before = ps.copy()
             b = Box.from_points(ps)
             mag = float(np.max(np.abs(ps))) if len(ps) else 1.0
@@ -291,19 +346,19 @@ def run_impl(c):
                     "bbox_same": bool(bb is not None and np.array_equal(bb.origin, b.origin) and np.array_equal(bb.size, b.size)),
                     "args_unchanged": bool(np.array_equal(before, ps))}
         if kind == "contains":
-            b = Box(np.array(c["origin"]), np.array(c["size"]))
+            b = Box(_a(c["origin"], c), _a(c["size"], c))
             planes = [[getattr(b, nm).reference_point.tolist(), getattr(b, nm).normal.tolist()] for nm in PLANES]
             res, sds = [], []
             for p, atol in c["rows"]:
-                p = np.array(p)
+                p = _a(p, c)
                 res.append(bool(b.contains(p, atol=atol) if atol else b.contains(p)))
                 sds.append([float(getattr(b, nm).signed_distance(p)) for nm in PLANES])
             return {"res": res, "planes": planes, "sds": sds}
         if kind.startswith("extent"):
-            ps = _pts(c["points"])
+            ps = _a(c["points"], c, (-1, 3))
             d, i, j = extent(ps, ret_indices=True)
             return {"d": float(d), "i": int(i), "j": int(j), "d_only": float(extent(ps))}
-        ps = _pts(c["points"])
+        ps = _a(c["points"], c, (-1, 3))
         r = percentile(ps, np.array(c["axis"]), c["q"])
         return {"point": r.tolist()}
 
